@@ -166,6 +166,15 @@ class UnitX(Unit):
         LOOKUP = ('type_lookup(*old(doc), *old(node), local_of(attr(e, "base"@)->0), '
                   'crate::stdspec::as_deref_spec(&bound_of_qname(*old(doc), attr(e, "base"@)->0)))')
         fn = G.top(rel, 'fn', 'import_extension_fields')
+        # the ghost hint names two locals of the function; their spelling is read from the source so that renaming them is harmless
+        import re as _re
+        mb = _re.search(r'let\s+(\w+)\s*=\s*doc\s*\.\s*find_type_by_xml_name', fn.body)
+        me = _re.search(r'if\s+let\s+Some\(\s*mut\s+(\w+)\s*\)\s*=\s*node', fn.body)
+        if not mb or not me:
+            raise AnchorLost('complex::import_extension_fields: the locals holding the extension node / the looked-up base were not found')
+        bn, en = mb.group(1), me.group(1)
+        uniq = _re.sub(r'\bbase_node\b', bn, UNIQ_EXT)
+        uniq = _re.sub(r'\bbase\b(?!0|_)', en, uniq) if en != 'base' else uniq
         splice_fn(out, fn, f, 'complex::import_extension_fields', probe=probe, loop_isolation=False,
                   ensures=[('node-unchanged', '*final(node) == *old(node)'),
                            ('no-extension-no-change', 'res is Ok && no_ext(*old(node)) ==> (*final(base_fields))@ == (*old(base_fields))@'),
@@ -181,7 +190,7 @@ class UnitX(Unit):
                   opaque=[{'at': 'base_fields.clone_from(&struct_props.fields)', 'call': '*base_fields = (struct_props.fields).clone()', 'type': '-', 'note': CLONE_FROM_NOTE},
                           {'at': 'base.children().filter(Node::is_element)', 'call': 'element_children(base)', 'type': 'Vec<Node>', 'note': ELEM_CHILDREN_NOTE}],
                   inserts=[{'pos': 'body_start', 'text': BROADCAST + '\n' + reveal('extension', 'sequence', 'attribute', 'base')},
-                           {'at': 'let has_sequence', 'text': UNIQ_EXT}],
+                           {'at': 'let has_sequence', 'text': uniq}],
                   loops={0: {'kind': 'for', 'iter': 'it', 'match': 'in base.children()',
                              'invariants': [('extension-fixed', 'base == base0 && it.seq() == elem_kids(base) && has_sequence == has_seq(base)'),
                                             ('fields-so-far', 'appended(start, base_fields@, ext_own(base, it.index@ as nat))')],
